@@ -206,7 +206,7 @@ pub fn gen_request(r: &mut Rng, opname: &'static str, o: &GenOpts) -> GenReq {
     let gid = r.edge(32) as u32;
     let pid = r.edge(32) as u32;
     let mut b = Body::new();
-    let mut expect: Option<(&'static str, Vec<(&'static str, V)>)> = None;
+    let expect: Option<(&'static str, Vec<(&'static str, V)>)>;
     let mut needs_reply = true;
     let mut req_size = None;
     let mut key = String::new();
@@ -294,7 +294,7 @@ pub fn gen_request(r: &mut Rng, opname: &'static str, o: &GenOpts) -> GenReq {
         }
         "FUSE_SYMLINK" => {
             let n = gname(r, o);
-            let t = if r.chance(1, 10) { r.name_len(4095) } else { r.name(300) };
+            let t = if o.long_names && r.chance(1, 10) { r.name_len(4095) } else { r.name(300) };
             b.cstr(&n);
             b.cstr(&t);
             key = format!("name:{} target:{}", len_class(n.len()), len_class(t.len()));
@@ -370,9 +370,9 @@ pub fn gen_request(r: &mut Rng, opname: &'static str, o: &GenOpts) -> GenReq {
             let off = r.edge(64);
             let size = match r.below(8) {
                 0 => 0,
-                1 => 4096,
+                1 => 4096.min(o.max_payload as u64),
                 2 => r.below(64),
-                3 => 65536,
+                3 => 65536.min(o.max_payload as u64),
                 _ => r.below(o.max_payload as u64 + 1),
             };
             let rf = flagword(r, &[kconst("FUSE_READ_LOCKOWNER")]);
